@@ -875,16 +875,19 @@ impl Gen {
         if self.rng.chance(1, 40) && ops.len() >= 2 {
             ops.swap(0, 1); // non-consecutive
         }
-        if self.rng.chance(1, 15) && ops.len() >= 3 {
-            // a later link broken: an operation that declares another input denom than the
-            // previous hop's output
+        if self.rng.chance(1, 12) && ops.len() >= 3 {
+            // a later link broken: operation k is replaced by an unrelated, in itself valid swap of
+            // some funded pool, so its declared input is not what the previous hop produced
             let k = self.rng.range(1, ops.len() as u64 - 1) as usize;
-            let SwapOperation::MantraSwap { token_in_denom: first_in, .. } = ops[0].clone();
-            if let SwapOperation::MantraSwap { token_in_denom, token_out_denom, pool_identifier } = ops[k].clone() {
-                let _ = token_in_denom;
-                let new_in = if self.rng.chance(1, 2) { first_in } else { token_out_denom.clone() };
-                ops[k] = SwapOperation::MantraSwap { token_in_denom: new_in, token_out_denom, pool_identifier };
-            }
+            let p = *self.rng.pick(&funded);
+            let n = p.pool_info.asset_denoms.len();
+            let i = self.rng.below(n as u64) as usize;
+            let j = (i + 1 + self.rng.below(n as u64 - 1) as usize) % n;
+            ops[k] = SwapOperation::MantraSwap {
+                token_in_denom: p.pool_info.asset_denoms[i].clone(),
+                token_out_denom: p.pool_info.asset_denoms[j].clone(),
+                pool_identifier: p.pool_info.pool_identifier.clone(),
+            };
         }
         if self.rng.chance(1, 60) {
             ops.clear();
